@@ -44,6 +44,8 @@ class AliasMap:
 class Parser:
     use_cache = False
     _cache = lrucache.MTLRUCache(2000)
+    max_brace_depth = 100  # braces nested deeper than this are text (the interpreter stack is finite)
+    brace_depth = 0
 
     def __init__(self, txt, included=True, replace_tags=None, siteinfo=None):
 
@@ -251,6 +253,17 @@ class Parser:
 
     def parse_open_brace(self):
         token_type, txt = self.get_token()
+        if self.brace_depth >= self.max_brace_depth:
+            self.pos += 1
+            return txt
+
+        self.brace_depth += 1
+        try:
+            return self._parse_open_brace(txt)
+        finally:
+            self.brace_depth -= 1
+
+    def _parse_open_brace(self, txt):
         parsed_nodes = []
 
         numbraces = len(txt)
